@@ -15,7 +15,7 @@ from .rxtie import LINK_ATOMS, IMAGE_ATOMS
 INLINE_NAMES = {"n": "newline", "e": "escape", "b": "backticks", "m": "emphasis", "s": "strikethrough", "a": "autolink", "h": "html_inline",
                 "y": "entity", "l": "link", "i": "image"}
 INLINE_SETS = ["tnebsmliahy", "tnebsmliahy", "tnebmli", "tli", "tmi", "ti", "tnebsml", "tlahy", "t", "tne", "tnebsmliahy", "nebmli", "tsli"]
-FIXED = ["# h *e* ![i](s)\n\n- a [l](u 't')\n- b\n\n> q `c` <http://x.y> &amp;\n", "para ![a ![b](c)](d)\n===\n", "<div>\n*x*\n</div>\n\n*y*\n",
+FIXED = ["```\n<pre><script>alert(1)</script></pre>\n```\n", "> ~~~ i\n> <pre>x</pre>\n", "    <pre>y</pre>\n", "# h *e* ![i](s)\n\n- a [l](u 't')\n- b\n\n> q `c` <http://x.y> &amp;\n", "para ![a ![b](c)](d)\n===\n", "<div>\n*x*\n</div>\n\n*y*\n",
          "- ![x](javascript:y)\n\n  [z](data:image/png;base64,q)\n", "a\\\nb  \nc\n", "> - # [h](u)\n>   ***\n", "    code *x*\n\n~~~\n[f](g)\n~~~\n",
          "[r] ![r] [t][r]\n", "a\n---\n![b][R]\n", "* * *\n*a*\n"]
 
@@ -55,6 +55,9 @@ def rand_full(rng) -> str:
     base = rand_more(rng) if k < 0.3 else rand_l(rng) if k < 0.5 else rand_q(rng) if k < 0.65 else gens.struct_doc(rng, 2) if k < 0.85 \
         else next(gens.doc_stream(rng, 1, 6))
     ls = base.split("\n")
+    if rng.random() < 0.06:      # a fence around markup-shaped lines
+        f = rng.choice(["```", "~~~", "````"])
+        ls = [f + rng.choice(["", " info", "<pre>"])] + rng.choice([["<pre><b>x</b></pre>"], ["<pre>", "y", "</pre>"], ["<code>z</code>"]]) + ([f] if rng.random() < 0.8 else []) + ls
     for i in range(len(ls)):
         r = rng.random()
         if r < 0.3:
